@@ -167,7 +167,7 @@ def tlc(scratch, module, cfg, workers="auto", extra=(), timeout=900, simulate=No
     meta = os.path.join(wd, "meta")
     if not jvm:
         jvm = ("-Xmx12g",)
-    cmd = ["java", "-XX:+UseParallelGC", "-Xss64m"] + list(jvm) + ["-cp", TLA_CP, "tlc2.TLC",
+    cmd = ["java", "-XX:+UseParallelGC", "-Xss" + os.environ.get("VERIF_XSS", "512m")] + list(jvm) + ["-cp", TLA_CP, "tlc2.TLC",
            "-noGenerateSpecTE", "-metadir", meta, "-config", cfg, "-workers", str(workers)]
     if simulate:
         cmd += ["-simulate", simulate]
